@@ -170,7 +170,11 @@ def vmf_vs_scipy(mean, concentration, y):
         if not (1e-6 <= k <= 500):
             return Skip('concentration outside [1e-6, 500]')
         want = du.ref_vmf(mb[idx], k, du.unit(yb[idx]))
-        ok, ratio = _close(got[idx], want, rtol=1e-10, atol=1e-10)
+        # parameters stored in single precision: the value is the density of the stored (rounded) concentration, to
+        # the accuracy single-precision arithmetic on terms of size kappa allows
+        single = concentration.dtype == np.float32
+        ok, ratio = _close(got[idx], want, rtol=1e-10, atol=1e-10) if not single else \
+            _close(got[idx], want, rtol=0.0, atol=4e-6 * (k + D * abs(np.log(k)) + 10))
         if not ok:
             return Fail('vmf-value', f'log_pdf differs from scipy.stats.vonmises_fisher at {idx}: got '
                         f'{np.asarray(got[idx]).ravel()[:3]}, want {want.ravel()[:3]} (D={D}, kappa={k:.6g}, '
@@ -472,6 +476,11 @@ def search(ctx):
         N = int(rng.integers(1, 5))
         ylead = lead if (rng.random() < 0.7 or not lead) else tuple(lead[:-1]) + (1,)
         y = du.observations(rng, ylead, N, D, False, scale=float(np.exp(rng.normal() * 2)))
+        if rng.random() < 0.15:
+            # concentration kept as float32 (parameters restored from a single-precision checkpoint)
+            kappa = np.clip(kappa, 1e-6, 500).astype(np.float32)
+            kappa = np.where((kappa < np.float32(1e-6)) | (kappa > np.float32(500)), np.float32(1.0), kappa).astype(np.float32)
+            ctx.count('search-vmf-concentration-float32')
         ctx.count(f'search-vmf-D{D}')
         held = ctx.run(vmf_vs_scipy, mean=mean, concentration=kappa, y=y)
         if i == 0:
